@@ -1,5 +1,6 @@
 """C07 — streamed HTML equals the fully resolved render for any completion order."""
 import itertools
+import re
 
 from . import common as C
 from . import htmlparse_stream as H
@@ -55,18 +56,29 @@ def SU(fb, c): return [11, fb, c]         # real leptos <Suspense fallback=fb>
 def TR(fb, c): return [12, fb, c]         # real leptos <Transition fallback=fb>
 def RES(f, c): return [13, f, c]          # move || res_f.get().map(|_| c): synchronous read of a resource
 def LS(f, pre, post, c): return [14, f, pre, post, c]   # Suspend { [local.await;] f.await; [local.await;] c }
+def V(*cs): return [8] + list(cs)          # Vec<AnyView>: children, then a <!> end marker
+def O(c=None): return [9] if c is None else [9, c]      # Option<AnyView>
+def W(w, c): return [15, w, c]            # transparent wrapper (Either / EitherOfN / Result::Ok / OwnedView / View / [T;1])
+def SQ(k, *cs): return [16, k] + list(cs) # [T;N] / StaticVec / Fragment: children, no end marker
+def TR_(rep, s): return [26, rep, s]      # text node in another representation (&str, Cow, Arc<str>, Oco, numbers)
+def EN(t, *cs): return [27, t] + list(cs) # element built by chained .child() calls
 NEVER = -1                                # "future" of a LocalResource: never completes on the server
 def Cm(f): return [0, f]
 P = [1]
 LEPTOS_KINDS = {10, 11, 12, 13, 14}
 TICK, CREATE, RENDER = [2], [3], [4]      # extra schedule events of opcode 1 (executor turns under control)
 TAGS = ["div", "p", "span", "b"]
+WRAPS = ["Either::Left", "Either::Right", "EitherOf3::B", "Ok", "OwnedView::new", "into_view", "EitherOf4::D", "[_; 1]"]
+REPS = ["&'static str", "Cow::Borrowed", "Cow::Owned", "Arc<str>", "Oco::Borrowed", "Oco::Owned", "Oco::Counted", "u32", "i64"]
+TUPLE_ARITIES = (0, 1, 2, 3, 4, 5, 6, 7, 8, 12, 16, 25, 26)
 
 
 def futures_of(v):
     k = v[0]
-    if k in (0, 6):
+    if k in (0, 6, 26):
         return []
+    if k in (8, 9, 15, 16, 27):
+        return [f for c in children(v) for f in futures_of(c)]
     if k == 1:
         return futures_of(v[2])
     if k == 5:
@@ -96,8 +108,14 @@ def kinds_in(v, acc=None):
 
 def children(v):
     k = v[0]
-    if k in (0, 6):
+    if k in (0, 6, 26):
         return []
+    if k in (8, 9):
+        return v[1:]
+    if k == 15:
+        return [v[2]]
+    if k in (16, 27):
+        return v[2:]
     if k == 1:
         return [v[2]]
     if k == 5:
@@ -158,6 +176,19 @@ def show_view(v):
     if k == 14:
         return "Suspend(%sf%d.await; %s-> %s)" % ("local.await; " if v[2] else "", v[1],
                                                    "local.await; " if v[3] else "", show_view(v[4]))
+    if k == 8:
+        return "vec![" + ", ".join(show_view(c) for c in v[1:]) + "]"
+    if k == 9:
+        return "Some(%s)" % show_view(v[1]) if len(v) > 1 else "None"
+    if k == 15:
+        return "%s(%s)" % (WRAPS[v[1] % 8], show_view(v[2]))
+    if k == 16:
+        return "%s[%s]" % (["array", "StaticVec", "Fragment"][v[1] % 3], ", ".join(show_view(c) for c in v[2:]))
+    if k == 26:
+        return "%s(%r)" % (REPS[v[1] % 9], s(v[2]))
+    if k == 27:
+        t = TAGS[v[1] % 4]
+        return "%s()%s" % (t, "".join(".child(%s)" % show_view(c) for c in v[2:]))
     return "?"
 
 
@@ -177,6 +208,11 @@ class Lab:
         if r < 0.12:
             return base + self.rng.choice(["<", "&", ">", "<!--s-1-o-->", "</p>"])
         return base
+
+    def number(self, signed):
+        """a unique decimal label (fixed width: none is a substring of another)"""
+        self.n += 1
+        return ("-" if signed and self.rng.random() < 0.4 else "") + "%d" % (7000 + self.n)
 
 
 def gen_view(rng, lab, fut, depth, allow, in_fallback=False, in_susp=False):
@@ -205,13 +241,31 @@ def gen_view(rng, lab, fut, depth, allow, in_fallback=False, in_susp=False):
             opts += [13, 13, 13]
         if 14 in allow and in_susp and not in_fallback and fut[0] < fut[1]:
             opts += [14, 14]
+        for ck in (8, 9, 15, 16, 27):
+            if ck in allow:
+                opts += [ck]
     k = rng.choice(opts)
     if k == 0:
+        if 26 in allow and rng.random() < 0.2:
+            rep = rng.randrange(9)
+            return TR_(rep, lab.number(rep == 8) if rep >= 7 else lab.text())
         return T(lab.text())
+    if k in (8, 16, 27):
+        n = rng.choice([0, 1, 2, 2, 3]) if k == 8 else rng.choice([0, 1, 2, 3, 4]) if k == 16 else rng.choice([2, 2, 3, 4])
+        cs = [gen_view(rng, lab, fut, depth - 1, allow, in_fallback, in_susp) for _ in range(n)]
+        return V(*cs) if k == 8 else SQ(rng.randrange(3), *cs) if k == 16 else EN(rng.randrange(4), *cs)
+    if k == 9:
+        return O() if rng.random() < 0.3 else O(gen_view(rng, lab, fut, depth - 1, allow, in_fallback, in_susp))
+    if k == 15:
+        return W(rng.randrange(8), gen_view(rng, lab, fut, depth - 1, allow, in_fallback, in_susp))
     if k == 1:
         return E(rng.randrange(4), gen_view(rng, lab, fut, depth - 1, allow, in_fallback, in_susp))
     if k == 2:
         n = rng.choice([0, 1, 2, 2, 3, 3, 4])
+        if 27 in allow and rng.random() < 0.03:
+            # the macro-generated tuple impls up to the largest one
+            n = rng.choice([5, 6, 7, 8, 12, 16, 25, 26])
+            return Tu(*[gen_view(rng, lab, fut, 0, allow, in_fallback, in_susp) for _ in range(n)])
         return Tu(*[gen_view(rng, lab, fut, depth - 1, allow, in_fallback, in_susp) for _ in range(n)])
     if k == 3:
         f = fut[0]
@@ -220,18 +274,19 @@ def gen_view(rng, lab, fut, depth, allow, in_fallback=False, in_susp=False):
     if k == 13:
         f = fut[0]
         fut[0] += 1
-        return RES(f, gen_view(rng, lab, fut, min(depth - 1, 1), {0, 1, 2}, True))
+        return RES(f, gen_view(rng, lab, fut, min(depth - 1, 1), {0, 1, 2} | (allow & CONT), True))
     if k == 14:
         f = fut[0]
         fut[0] += 1
         pre, post = rng.choice([(1, 0), (0, 1), (0, 1), (1, 1), (0, 0)])
-        return LS(f, pre, post, gen_view(rng, lab, fut, min(depth - 1, 1), {0, 1, 2}, True))
+        return LS(f, pre, post, gen_view(rng, lab, fut, min(depth - 1, 1), {0, 1, 2} | (allow & CONT), True))
     if k == 4:
         f = fut[0]
         fut[0] += 1
         some = 0 if rng.random() < 0.15 else 1
         # a boundary that yields None keeps its fallback: that fallback has no asynchronous parts
-        fb = gen_view(rng, lab, fut, min(depth - 1, 1), (allow & {0, 1, 2, 3}) if some else {0, 1, 2}, True)
+        fb = gen_view(rng, lab, fut, min(depth - 1, 1),
+                      (allow & ({0, 1, 2, 3} | CONT)) if some else ({0, 1, 2} | (allow & CONT)), True)
         return B(f, fb, gen_view(rng, lab, fut, depth - 1, allow), some)
     if k == 5:
         return A(gen_view(rng, lab, fut, depth - 1, allow))
@@ -245,7 +300,7 @@ def gen_view(rng, lab, fut, depth, allow, in_fallback=False, in_susp=False):
     if k == 10:
         return EB(gen_view(rng, lab, fut, depth - 1, allow, False, in_susp))
     if k in (11, 12):
-        fb = gen_view(rng, lab, fut, min(depth - 1, 1), {0, 1, 2}, True)
+        fb = gen_view(rng, lab, fut, min(depth - 1, 1), {0, 1, 2} | (allow & CONT), True)
         return [k, fb, gen_view(rng, lab, fut, depth - 1, allow, False, True)]
 
 
@@ -307,6 +362,28 @@ def templates():
     t.append(("l-local-nest-inner", d(SU(p(T("L1")), Tu(S(1, p(T("C1"))), SU(E(2, T("L2")), LS(2, 0, 1, E(3, T("C2")))))))))
     t.append(("l-local-nest-outer", d(SU(p(T("L1")), Tu(LS(1, 0, 1, p(T("C1"))), SU(E(2, T("L2")), S(2, E(3, T("C2")))))))))
     t.append(("l-local-sib", d(Tu(SU(p(T("L1")), LS(1, 0, 1, p(T("C1")))), SU(p(T("L2")), S(2, p(T("C2"))))))))
+    # containers, wrappers and text representations of tachys (modelled by desugaring)
+    t.append(("vec", d(V(T("a"), S(1, p(T("x"))), T("c")))))
+    t.append(("vec-text", d(Tu(V(T("a"), S(1, T("m"))), T("r")))))
+    t.append(("vec-empty", d(Tu(T("l"), V(), S(1, T("m")), V(S(2, T("n"))), T("r")))))
+    t.append(("opt", d(Tu(O(S(1, p(T("x")))), O(), T("r"), O(S(2, T("y"))), T("s")))))
+    for w in range(8):
+        t.append(("wrap-%d" % w, d(Tu(T("l"), W(w, S(1, T("m"))), T("r")))))
+    t.append(("wrap-nest", d(W(0, W(3, W(4, Tu(p(T("o")), W(5, S(1, W(2, S(2, p(T("i")))))), E(2, T("z")))))))))
+    for k in range(3):
+        t.append(("seq-%d" % k, d(Tu(T("l"), SQ(k, S(1, T("m")), T("n")), T("r")))))
+        t.append(("seq-empty-%d" % k, d(Tu(T("l"), SQ(k), S(1, T("m")), SQ(k), T("r")))))
+    t.append(("seq-bound", d(SQ(1, B(1, p(T("L1")), SQ(2, p(T("C1")), S(2, T("i")))), V(B(3, T("L3"), T("C3")))))))
+    t.append(("text-reps", d(Tu(TR_(0, "l"), S(1, TR_(4, "m")), TR_(7, "7001"), S(2, TR_(8, "-7002")), TR_(6, "r")))))
+    t.append(("text-reps2", d(Tu(S(1, TR_(1, "K")), TR_(2, ""), TR_(3, "B<"), S(2, TR_(5, "C&")), TR_(0, "")))))
+    t.append(("chained", EN(0, T("l"), S(1, T("m")), T("r"))))
+    t.append(("chained4", EN(1, S(1, p(T("x"))), T("a"), EN(2, T("b"), S(2, T("y"))), T("c"))))
+    big = [T("t%d" % i) if i % 3 else E(i % 4, T("e%d" % i)) for i in range(26)]
+    big[4], big[5], big[20] = S(1, T("m")), T("n"), S(2, p(T("x")))
+    t.append(("tuple-26", d(Tu(*big))))
+    t.append(("tuple-25", d(Tu(*big[:25]))))
+    t.append(("tuple-16", Tu(*big[:16])))
+    t.append(("tuple-12", Tu(*big[3:15])))
     t.append(("F-C07", Tu(a, S(1, b), c)))
     t.append(("F-C07-before", Tu(S(1, a), b)))
     return t
@@ -397,18 +474,36 @@ def rand_schedule(rng, futs):
     return s
 
 
+# containers / wrappers / text representations of tachys (modelled by desugaring, see StreamRun.view_of)
+CONT = {8, 9, 15, 16, 26, 27}
 FAMILIES = [
     ("real", {0, 1, 2, 3}),
     ("boundary", {0, 1, 2, 3, 4}),
     ("api", {0, 1, 2, 3, 4, 5, 6, 7}),
     ("leptos", {0, 1, 2, 3, 10, 11, 12, 13, 14}),
+    ("cont", {0, 1, 2, 3} | CONT),
+    ("cont-boundary", {0, 1, 2, 3, 4, 5} | CONT),
+    ("cont-leptos", {0, 1, 2, 3, 10, 11, 12, 13, 14} | CONT),
 ]
 
 
+def comparable(tree):
+    """is the view in the Coq model (directly or by the desugaring of StreamRun.view_of)?
+    The real leptos components are not modelled: oracle only.  An empty [T;0] / StaticVec /
+    Fragment renders nothing at all, which no modelled view does: oracle only."""
+    if kinds_in(tree) & LEPTOS_KINDS:
+        return False
+    return not has_empty_seq(tree)
+
+
+def has_empty_seq(v):
+    if v[0] == 16 and len(v) == 2:
+        return True
+    return any(has_empty_seq(c) for c in children(v))
+
+
 def item(ooo, drive, tree, init, sched, kind, op=0):
-    # the real leptos components are not modelled: oracle only
-    compare = not (kinds_in(tree) & LEPTOS_KINDS)
-    return dict(case=C.norm([op, ooo, drive, tree, init, sched]), kind=kind, compare=compare)
+    return dict(case=C.norm([op, ooo, drive, tree, init, sched]), kind=kind, compare=comparable(tree))
 
 
 def res_placement_ok(v, in_susp=False):
@@ -452,7 +547,7 @@ def valid_case(it):
         for e in case[5]:
             if not (e == [1] or (len(e) == 2 and e[0] == 0 and e[1] in futs)):
                 return False
-        return bool(it.get("compare", True)) == (not (ks & LEPTOS_KINDS))
+        return bool(it.get("compare", True)) == comparable(tree)
     except Exception:
         return False
 
@@ -462,12 +557,29 @@ def wf_view(v, in_fallback):
         return False
     k = v[0]
     if k in (0, 6):
-        return len(v) == 2 and isinstance(v[1], list) and all(isinstance(b, int) and 0 <= b < 256 for b in v[1]) \
-            and (k == 0 or not in_fallback) and _utf8(v[1])
+        return len(v) == 2 and _bytes(v[1]) and (k == 0 or not in_fallback)
     if k == 1:
         return len(v) == 3 and isinstance(v[1], int) and 0 <= v[1] < 4 and wf_view(v[2], in_fallback)
     if k == 2:
-        return len(v) <= 6 and all(wf_view(c, in_fallback) for c in v[1:])
+        return (len(v) - 1) in TUPLE_ARITIES and all(wf_view(c, in_fallback) for c in v[1:])
+    if k == 8:
+        return all(wf_view(c, in_fallback) for c in v[1:])
+    if k == 9:
+        return len(v) <= 2 and all(wf_view(c, in_fallback) for c in v[1:])
+    if k == 15:
+        return len(v) == 3 and v[1] in range(8) and wf_view(v[2], in_fallback)
+    if k == 16:
+        return len(v) >= 2 and v[1] in (0, 1, 2) and (v[1] != 0 or len(v) <= 6) \
+            and all(wf_view(c, in_fallback) for c in v[2:])
+    if k == 26:
+        if not (len(v) == 3 and v[1] in range(9) and _bytes(v[2])):
+            return False
+        if v[1] >= 7:
+            t = bytes(v[2]).decode()
+            return bool(re.fullmatch(r"[1-9][0-9]{0,8}" if v[1] == 7 else r"-?[1-9][0-9]{0,8}", t))
+        return True
+    if k == 27:
+        return 4 <= len(v) <= 6 and v[1] in range(4) and all(wf_view(c, in_fallback) for c in v[2:])
     if k == 3:
         return len(v) == 3 and isinstance(v[1], int) and v[1] > 0 and wf_view(v[2], in_fallback)
     if in_fallback:
@@ -488,6 +600,10 @@ def wf_view(v, in_fallback):
         return len(v) == 5 and isinstance(v[1], int) and v[1] > 0 and v[2] in (0, 1) and v[3] in (0, 1) \
             and wf_view(v[4], True) and not futures_of(v[4])
     return False
+
+
+def _bytes(b):
+    return isinstance(b, list) and all(isinstance(x, int) and 0 <= x < 256 for x in b) and _utf8(b)
 
 
 def _utf8(b):
@@ -522,7 +638,7 @@ def generate(rng, tier):
     # 2. random trees
     n = 9000 if quick else 160000
     for i in range(n):
-        fam, allow = FAMILIES[rng.choice([0, 0, 0, 1, 1, 2, 3, 3])]
+        fam, allow = FAMILIES[rng.choice([0, 0, 0, 1, 1, 2, 3, 3, 4, 4, 5, 6])]
         lab = Lab(rng)
         fut = [1, 1 + rng.choice([1, 2, 2, 3, 3, 4, 4])]
         tree = gen_view(rng, lab, fut, rng.choice([2, 3, 3, 4]), allow)
@@ -535,7 +651,7 @@ def generate(rng, tier):
             drive = rng.choice([0, 0, 1])
             yield item(ooo, drive, tree, init, rand_schedule(rng, rest),
                        "rnd-%s-%s" % (fam, "ooo" if ooo else "io"))
-        if fam == "leptos" and (kinds_in(tree) & LEPTOS_KINDS):
+        if fam.endswith("leptos") and (kinds_in(tree) & LEPTOS_KINDS):
             for _ in range(reps):
                 yield item(ooo, 0, tree, [], rand_tick_schedule(rng, tree),
                            "rnd-ticks-%s" % ("ooo" if ooo else "io"), op=1)
@@ -573,7 +689,8 @@ def html_escape(s):
 
 
 def text_of_node(v):
-    return dec(v[1]) if isinstance(v[1], list) else v[1]
+    t = v[2] if v[0] == 26 else v[1]
+    return dec(t) if isinstance(t, list) else t
 
 
 def py_render(v, flag, dropped=frozenset()):
@@ -582,13 +699,34 @@ def py_render(v, flag, dropped=frozenset()):
     flag = position is NextChildAfterText.  Returns (html, flag).
     `dropped`: Suspend futures rendered as nothing (used only to recognise finding F-C07-f)."""
     k = v[0]
-    if k == 0:
+    if k in (0, 26):
         s = text_of_node(v)
         return ("<!>" if flag else "") + (" " if s == "" else html_escape(s)), True
-    if k == 1:
-        inner, _ = py_render(v[2], False, dropped)
+    if k in (1, 27):
+        if k == 1:
+            inner, _ = py_render(v[2], False, dropped)
+        else:
+            inner, fl = [], False
+            for c in v[2:]:
+                h, fl = py_render(c, fl, dropped)
+                inner.append(h)
+            inner = "".join(inner)
         t = TAGS[v[1] % 4]
         return "<%s>%s</%s>" % (t, inner, t), False
+    if k in (8, 16):
+        # Vec: the children, then a <!> end marker; arrays / StaticVec / Fragment: just the children
+        out = []
+        for c in children(v):
+            h, flag = py_render(c, flag, dropped)
+            out.append(h)
+        if k == 8:
+            return "".join(out) + "<!>", False
+        return "".join(out), flag
+    if k == 9:
+        # Option: Some(v) is v, None is ()
+        return py_render(v[1], flag, dropped) if len(v) > 1 else ("<!>", False)
+    if k == 15:
+        return py_render(v[2], flag, dropped)
     if k == 2:
         if len(v) == 1:
             return "<!>", False
@@ -647,7 +785,7 @@ def label_scopes(v, chain, out):
     """for every non-empty Text label: the asynchronous scopes enclosing it —
     ('content', [futures that must all be complete]) / ('fallback', [futures; gone only when all complete])"""
     k = v[0]
-    if k == 0:
+    if k in (0, 26):
         s = text_of_node(v)
         if s:
             out.append((html_escape(s), list(chain)))
@@ -825,12 +963,16 @@ def pos_free(ooo, v, flag, init, strict, in_suspense=False, dropped=frozenset())
     StreamProofs.pf for the modelled kinds)"""
     k = v[0]
     rec = lambda c, fl, st, ins=in_suspense: pos_free(ooo, c, fl, init, st, ins, dropped)
-    if k in (0, 6):
+    if k in (0, 6, 26):
         return True
     if k == 1:
         return rec(v[2], False, strict)
-    if k == 2:
-        for c in v[1:]:
+    if k in (9, 15):
+        return all(rec(c, flag, strict) for c in children(v))
+    if k in (2, 8, 16, 27):
+        if k == 27:
+            flag = False
+        for c in children(v):
             if not rec(c, flag, strict):
                 return False
             flag = end_flag(c, flag, dropped)
